@@ -293,6 +293,59 @@ Theorem C12_raising_task_record_total : forall rl env n job i t x ltb text ptb p
 Proof. exact (raising_task_record_total mee_repaired). Qed.
 Print Assumptions C12_raising_task_record_total.
 
+(* ---------------- known finding F-C12-2: namespace values travel with the record ---------- *)
+
+(* _Frame copies the RAW values of f_globals["__file__"], f_globals["__name__"] and
+   f_locals["__traceback_hide__"] into the stand-in, so they are pickled with the record.
+   [handle_task_ns] = the worker's handling of a raising task whose live traceback is given with its
+   frames' namespaces (values may be [GUnp]: objects that do not pickle).  The statement "a task
+   raising a picklable exception has its own exception type delivered" is FALSE of this faithful
+   model: witness, a task whose frame has __traceback_hide__ = <an object that does not pickle>
+   (what the check replays on the real code on every run; known_findings.json F-C12-2). *)
+Theorem C12_own_exception_delivered_refuted :
+  exists rl env n job i t x ltb text ptb ptext ms nx,
+    ltb <> [] /\ (forall k, env k = PutOk) /\ picklable_exc mee_repaired x /\ ptb <> [] /\
+    handle_task_ns rl env n job i t x ltb text ptb ptext = (ms, nx) /\
+    ~ (exists e, ms = [MAck job i; MReady job i false (PInfo e)] /\ ei_type e = t).
+Proof.
+  exists 1000, (fun _ => PutOk), 0%nat, 1, 0, (CPlain 3),
+         (mk_exc (CPlain 3) [AStr (s2l "mine"); AInt 7] []),
+         [mk_lf (mk_fr (s2l "t.py") (s2l "task") 3) [(k_name, GStr (s2l "tasks"))]
+                [(k_hide, GUnp (s2l "AttributeError(""Can't pickle local object"")"))]],
+         5, [mk_fr (s2l "pool.py") (s2l "workloop") 403], 6.
+  eexists _, _. split; [discriminate|]. split; [reflexivity|].
+  split; [split; [reflexivity|constructor]|]. split; [discriminate|].
+  split; [vm_compute; reflexivity|].
+  intros [e [H1 H2]]. inversion H1; subst e. discriminate H2.
+Qed.
+Print Assumptions C12_own_exception_delivered_refuted.
+
+(* the strongest true statement: if every namespace value the stand-ins hold pickles, the task's own
+   exception is delivered (exactly the output of C12_raising_task_delivered) *)
+Theorem C12_own_exception_delivered_partial : forall rl env n job i t x ltb text ptb ptext c,
+    copy_ltb (EInfo.default_max_frames rl) ltb = Some c -> chain_pickle_err c = None ->
+    env n = PutOk -> env (S n) = PutOk -> picklable_exc mee_repaired x ->
+    handle_task_ns rl env n job i t x ltb text ptb ptext =
+    ([MAck job i; MReady job i false (PInfo (mk_ei t (EWT x text) (map sf_fr c) text false))],
+     inr (S (S n))).
+Proof. exact (own_exception_delivered_partial mee_repaired). Qed.
+Print Assumptions C12_own_exception_delivered_partial.
+
+(* and in general: an unpicklable namespace value turns ANY raised exception into the encoding-error
+   answer (the job is answered once, the worker goes on; type and args of the own exception are lost) *)
+Theorem C12_namespace_value_reported_as_encoding_error :
+  forall rl env n job i t x ltb text ptb ptext c r,
+    copy_ltb (EInfo.default_max_frames rl) ltb = Some c -> chain_pickle_err c = Some r ->
+    ptb <> [] -> env n = PutOk -> env (S n) = PutOk -> env (S (S n)) = PutOk ->
+    exists e2,
+      handle_task_ns rl env n job i t x ltb text ptb ptext =
+      ([MAck job i; MReady job i false (PInfo e2)], inr (S (S (S n)))) /\
+      ei_type e2 = CMee /\
+      exc_of (ei_exc e2) = mk_exc CMee [AStr r; AStr einfo_repr]
+                                  [(s_exc, AStr r); (s_value, AStr einfo_repr)].
+Proof. exact ns_unpicklable_reported_as_encoding_error. Qed.
+Print Assumptions C12_namespace_value_reported_as_encoding_error.
+
 (* ---------------- the worker's encoding-error path ---------------- *)
 
 Theorem C12_encoding_error : forall mf env n job i o ptb ptext ok p r,
